@@ -5,23 +5,23 @@ HERE = os.path.dirname(os.path.dirname(os.path.abspath(__file__)))
 # id: (property, needs, [(check, outcome)])
 T = {
  "C01-1": ("C01", "two sibling directories where one name is a string prefix of the other, a rename of the shorter one, then activity in the longer one", [("C02 quick", "VIOLATION (watch map / probe)")]),
- "C04-1": ("C04", "two handlers on one watch, the first unschedules the watch inside its callback", [("-", "no check built for C04")]),
- "C04-2": ("C04", "dispatcher takes the item between the insert and the _last_item assignment, then the same event is queued again", [("C16 quick", "see DESIGN.md section 13")]),
- "C05-1": ("C05", "two handlers on one watch, one removes the watch from inside its callback", [("-", "no check built for C05")]),
- "C05-2": ("C05", "remove_handler_for_watch returns between the dispatcher's membership check and the dispatch call", [("-", "no check built for C05")]),
- "C06-1": ("C06", "stopping thread preempted between enqueueing the sentinel and raising the stop flag", [("C06", "see DESIGN.md section 13")]),
+ "C04-1": ("C04", "two handlers on one watch, the first unschedules the watch inside its callback", [("C04 quick", "VIOLATION (handler called for a watch it is no longer registered for)"), ("C05 quick", "VIOLATION")]),
+ "C04-2": ("C04", "dispatcher takes the item between the insert and the _last_item assignment, then the same event is queued again", [("C16 quick", "VIOLATION (a put is dropped although no equal item was the waiting tail)"), ("C04 quick", "not caught: the C04 sessions use distinct events; coalescing is decided by C16")]),
+ "C05-1": ("C05", "two handlers on one watch, one removes the watch from inside its callback", [("C05 quick", "VIOLATION (sequential re-entrant session; replayed natively)")]),
+ "C05-2": ("C05", "remove_handler_for_watch returns between the dispatcher's membership check and the dispatch call", [("C05 quick", "VIOLATION (thread session: callback starts after remove_handler_for_watch returned)")]),
+ "C06-1": ("C06", "stopping thread preempted between enqueueing the sentinel and raising the stop flag", [("C06 quick", "VIOLATION (deadlock: dispatcher blocks in get() after consuming the sentinel; found by the per-step deadlock queries of the portfolio)")]),
  "C06-2": ("C06", "reader thread dead (unmount) while the emitter still waits, then stop/unschedule", [("-", "real inotify emitter not covered by C06")]),
- "C07-1": ("C07", "unschedule while an event of that watch is queued (KeyError in the observer thread)", [("-", "API-level histories of C07 not covered")]),
+ "C07-1": ("C07", "unschedule while an event of that watch is queued (KeyError in the observer thread)", [("C05 quick", "VIOLATION (uncaught KeyError in dispatch_events after a re-entrant unschedule)"), ("C07 quick", "not caught: C07 drives the inotify pipeline, not the observer API")]),
  "C07-2": ("C07", "new directory replaced by a regular file between the reader's walk and add_watch (ENOTDIR)", [("C07 quick", "not caught: transient lookup failures are outside the C07 check")]),
- "C08-1": ("C08", "two renames in flight, consumer sleeping on the first when the reader removes it", [("C17 quick", "VIOLATION (same change as C17-1)")]),
- "C08-2": ("C08", "an unrelated event between the two halves of a rename inside one read batch", [("-", "no check registered for C08")]),
+ "C08-1": ("C08", "two renames in flight, consumer sleeping on the first when the reader removes it", [("C17 quick", "VIOLATION (same change as C17-1)"), ("C08 quick", "not caught: the thread sessions of C08 are too small")]),
+ "C08-2": ("C08", "an unrelated event between the two halves of a rename inside one read batch", [("C08 quick", "VIOLATION (reader-alone session; replayed natively)")]),
  "C09-1": ("C09", "a name renamed away and re-occupied by a different inode with different mtime/size", [("C09 quick", "VIOLATION (modified law)")]),
  "C09-2": ("C09", "ignore_device=True together with an inode that changed path", [("C09 quick", "VIOLATION (moved law, ignore_device session)")]),
  "C10-1": ("C10", "an unreadable sub-directory that is not the last among its siblings, a later sibling with contents", [("C10 quick", "VIOLATION")]),
  "C10-2": ("C10", "a change after start() returned but before the emitter thread's first walk", [("C10 quick", "VIOLATION")]),
  "C11-1": ("C11", "filter with a Created class but no Moved class, non-recursive watch, rename inside the tree (adapted to the repaired mask function)", [("C11 quick", "VIOLATION")]),
  "C11-2": ("C11", "recursive watch, filter accepts the File class but not the Dir class, non-empty directory renamed or moved in", [("C11 quick", "VIOLATION")]),
- "C12-1": ("C12", "stop() lands between the reader's should_keep_running() and the lock at the top of read_events after a completed read", [("C12 quick", "INCONCLUSIVE (solver finds the double close; the VM re-execution of the schedule failed) - exit 2, not a pass")]),
+ "C12-1": ("C12", "stop() lands between the reader's should_keep_running() and the lock at the top of read_events after a completed read", [("C12 quick", "VIOLATION (no descriptor is closed twice)")]),
  "C12-2": ("C12", "watched directory deleted, reader finished, then stop/unschedule", [("C12 quick", "not caught: root-deletion session could not be completed")]),
  "C13-1": ("C13", "emitter creation/start fault during schedule(), then a successful schedule of an equal watch", [("C13 quick", "VIOLATION")]),
  "C13-2": ("C13", "failed start() followed by unschedule_all()/stop()", [("C13 quick", "VIOLATION (uncaught KeyError)")]),
@@ -31,10 +31,10 @@ T = {
  "C16-1": ("C16", "producer offers an equal item right after the consumer left the critical section", [("C16 quick", "VIOLATION")]),
  "C16-2": ("C16", "two adjacent events that differ only in is_synthetic", [("C16 quick", "VIOLATION (equality law)")]),
  "C17-1": ("C17", "remove() takes the head while the consumer sleeps on it, second delayed element behind", [("C17 quick", "VIOLATION")]),
- "C17-2": ("C17", "get() pops the head between remove()'s snapshot and its delete", [("C17 quick", "not decided within 1000 s (exit 124): not a pass, not a detection")]),
+ "C17-2": ("C17", "get() pops the head between remove()'s snapshot and its delete", [("C17 quick", "VIOLATION (found by the portfolio of per-obligation queries)")]),
  "C18-1": ("C18", "stop() arrives while the debouncer thread is inside the restart callback", [("C18 quick", "not caught: AutoRestartTrick not covered")]),
  "C18-2": ("C18", "watcher thread in poll() when an event-triggered restart kills the child", [("C18 quick", "not caught: ProcessWatcher/AutoRestartTrick not covered")]),
- "C19-1": ("C19", "str root and a valid multi-byte UTF-8 file name; look at the parent-directory event", [("C19 quick", "see DESIGN.md section 13")]),
+ "C19-1": ("C19", "str root and a valid multi-byte UTF-8 file name; look at the parent-directory event", [("C19 quick", "VIOLATION")]),
  "C19-2": ("C19", "two schedule() calls for the same directory with str and bytes on one observer", [("-", "not covered by C19 (single watch)")]),
  "C20-1": ("C20", "one-character name as last record, byte count not DWORD padded", [("-", "no check built for C20")]),
  "C20-2": ("C20", "a name re-used with the same action within one read", [("-", "no check built for C20")]),
